@@ -207,7 +207,8 @@ LastRedir(m, f) == LET s == At(m.redir, f, <<>>) IN IF s = <<>> THEN [kind |-> "
 RecvViol(m, e, f) ==
   LET log    == At(m.nlog, e.n, <<>>)
       resend == f \in m.recvd
-      mine   == {k \in DOMAIN log : log[k].k # "asking" /\ log[k].c = e.c /\ ~log[k].resend}
+      \* (per connection: with several connections per node the property promises nothing across them)
+      mine   == {k \in DOMAIN log : log[k].k # "asking" /\ log[k].c = e.c /\ ~log[k].resend /\ log[k].conn = e.conn}
       v10 == IF ~resend /\ \E k \in mine : log[k].i > e.i THEN {<<"C10", e.c, e.i, "node-order">>} ELSE {}
       \* With a fixed slot table the requests of one client for one slot are all first sent to the same master, which
       \* is what keeps them in order even when they are redirected (the redirects are followed in the order they are
